@@ -507,6 +507,33 @@ static void do_unmarshal_plain(const uint8_t *bytes, size_t len) {
     if (gc_every && (n_inputs % gc_every) == 0) collect_now();
 }
 
+/* e <hex>: unmarshal a function image, then run the real janet_env_valid on its first environment (an untrusted on-stack
+ * environment has a negative offset) -> "env <offset before> <length before> -> <result> <offset> <length>" */
+static void do_env_valid(const uint8_t *bytes, size_t len) {
+    JanetTryState ts;
+    volatile int ok = 0;
+    Janet x = janet_wrap_nil();
+    if (janet_try(&ts) == JANET_SIGNAL_OK) {
+        x = janet_unmarshal(bytes, len, 0, NULL, NULL);
+        ok = 1;
+    }
+    janet_restore(&ts);
+    if (!ok) {
+        char cls[128];
+        errclass(ts.payload, cls, sizeof cls);
+        printf("rej %s\n", cls);
+    } else if (!janet_checktype(x, JANET_FUNCTION) || janet_unwrap_function(x)->def->environments_length < 1 ||
+               janet_unwrap_function(x)->envs[0] == NULL) {
+        printf("noenv\n");
+    } else {
+        JanetFuncEnv *env = janet_unwrap_function(x)->envs[0];
+        int32_t o0 = env->offset, l0 = env->length;
+        int r = janet_env_valid(env);
+        printf("env %d %d -> %d %d %d\n", o0, l0, r, env->offset, env->length);
+    }
+    if (gc_every && (n_inputs % gc_every) == 0) collect_now();
+}
+
 static void do_asm(const uint8_t *text, size_t len) {
     JanetParser p;
     janet_parser_init(&p);
@@ -578,6 +605,7 @@ static Janet harness_run(int32_t argc, Janet *argv) {
     else if (cur_op == 'U') do_unmarshal(cur_bytes, cur_len, 0);
     else if (cur_op == 'a') do_asm(cur_bytes, cur_len);
     else if (cur_op == 'm') do_unmarshal_plain(cur_bytes, cur_len);
+    else if (cur_op == 'e') do_env_valid(cur_bytes, cur_len);
     else printf("bad-op\n");
     return janet_wrap_nil();
 }
